@@ -2,6 +2,7 @@
 """C11 - merging probes conserves every spike and renumbers ids disjointly."""
 
 import math
+import os
 
 import numpy as np
 from hypothesis import strategies as st
@@ -39,7 +40,8 @@ ASSUMPTIONS = ['merging requires amplitudes.npy, pc_feature_ind.npy, template_fe
 def _case(draw):
     c = draw(G.merge_case())
     # a second merge in the same process (same probe directories, same or reversed order)
-    c['again'] = draw(st.sampled_from([None, None, 'same', 'reversed', 'same-merger']))
+    c['again'] = draw(st.sampled_from([None, None, 'same', 'reversed', 'same-merger',
+                                       'retry-after-failure']))
     return c
 
 
@@ -198,7 +200,25 @@ def check(case):
         elif case.get('again') == 'reversed':
             runs.append((Ts[::-1], d / 'merged2'))
         for Tl, out in runs:
-            merger, model = G.run_merge(Tl, out, must_return)
+            if case.get('again') == 'retry-after-failure':
+                # a required file of the last probe is not there yet: the first merge() fails (or
+                # not - that call is not judged); the file arrives and merge() is called again
+                from phylib.io.merge import Merger
+                victim = Tl[-1].dir / 'amplitudes.npy'
+                aside = d / 'not-copied-yet.npy'
+                os.replace(victim, aside)
+                merger = must_return('Merger()', Merger, [T.dir for T in Tl], out)
+                try:
+                    with core.ambient_ctx():
+                        merger.merge()
+                except Exception:
+                    info['first_merge_failed'] = True
+                os.replace(aside, victim)
+                model = must_return('Merger.merge() (retry on the same object after a failed '
+                                    'call)', merger.merge)
+            else:
+                merger, model = G.run_merge(Tl, out, must_return,
+                                            rel_root=d if case.get('rel') else None)
             try:
                 _verify(Tl, out, model, info)
             finally:
@@ -207,8 +227,9 @@ def check(case):
                 except Exception:
                     pass
             if case.get('again') == 'same-merger':
-                model = must_return('Merger.merge() (second call on the same object)',
-                                    merger.merge)
+                with G.in_dir(d if case.get('rel') else None):
+                    model = must_return('Merger.merge() (second call on the same object)',
+                                        merger.merge)
                 try:
                     _verify(Tl, out, model, info)
                 finally:
@@ -248,6 +269,8 @@ def classify(case, info):
         labels.append('curated-probe')
     if case.get('again'):
         labels.append('second-merge-in-process:' + case['again'])
+    if case.get('rel'):
+        labels.append('relative-probe-paths')
     if len(set(p['tmpl_dtype'] for p in ps)) > 1 or len(set(p['clu_dtype'] for p in ps)) > 1:
         labels.append('mixed-id-dtypes')
     if len(set(p['time_dtype'] for p in ps)) > 1:
